@@ -85,19 +85,40 @@ def run(ctx, rep):
              cfg_text(3, 2, 1, ["PVLModule"], some, True, ops=("setitem", "pop")))]
     if ctx.thorough:
         runs.append(("all classes x all mechanisms, <=2 objects x <=2 items", cfg_text(2, 2, 1, ALL_ROOTS, ALL_MECHS, True, ("x", "y"))))
-        runs.append(("3 objects, all ops", cfg_text(3, 2, 1, ["PVLModule", "PVLObject"], ALL_MECHS, True)))
-        runs.append(("2 mutations, all ops", cfg_text(2, 2, 2, ["PVLGroup", "OrderedMultiDict"], some + ["pickle0", "pickle5"], True)))
-    cases = []
+        runs.append(("3 objects, all ops", cfg_text(3, 2, 1, ["PVLObject"], ALL_MECHS, True)))
+        runs.append(("2 mutations, all ops", cfg_text(2, 2, 2, ["OrderedMultiDict"], some + ["pickle0", "pickle5"], True)))
+    nseen = 0
+    sample = None
     for name, text in runs:
         p = os.path.join(ctx.scratch, "heap.cfg")
         with open(p, "w") as f:
             f.write(text)
-        r = tlc.run("MC_Heap", p, workers=1, scratch=ctx.scratch, timeout=3000)
+        r = tlc.run("MC_Heap", p, workers=1, scratch=ctx.scratch, timeout=7000)
         if r.violation:
             raise RuntimeError("Heap model violates a C11 invariant (spec error): %s\n%s" % (r.violation, r.raw[-3000:]))
         rep.tlc("MC_Heap: " + name, r)
         rep.exhaustive[name] = True
-        cases += r.printed
+        cases = r.printed
+        r.printed = None
+        r.raw = ""
+        res = pool_map(_replay, cases)
+        for c, out in zip(cases, res):
+            nontriv = any(i[1]["cls"] != "atom" for i in c["tree"]["items"]) or \
+                len({i[0] for i in c["tree"]["items"]}) < len(c["tree"]["items"])
+            rep.case("replay", json.dumps([c["tree"], c["mech"], [(s["side"], s["path"], s["o"]) for s in c["steps"]]]), nontriv)
+            if out[0] == "fail":
+                rep.fail(out[1], out[2], out[3])
+            else:
+                rep.traces_validated += 1
+        big = [c for c in cases if len(c["tree"]["items"]) == 2 and len(c["steps"]) > 1]
+        if big and sample is None:
+            c = big[len(big) // 2]
+            sample = {"tree": c["tree"], "mech": c["mech"],
+                      "steps": [{"side": s["side"], "path": s["path"], "o": s["o"]} for s in c["steps"]]}
+        nseen += len(cases)
+        del cases, res
+    if sample:
+        rep.sample(sample)
     # model-level check without emission at a larger bound (all invariants, 16 workers)
     p = os.path.join(ctx.scratch, "heapmc.cfg")
     with open(p, "w") as f:
@@ -107,17 +128,3 @@ def run(ctx, rep):
     if r.violation:
         raise RuntimeError("Heap model violates a C11 invariant (spec error): " + r.violation)
     rep.tlc("MC_Heap: invariants CopyEqual/OrigIntact/ClassesKept/Independent on the model", r)
-    res = pool_map(_replay, cases)
-    for c, out in zip(cases, res):
-        nontriv = any(i[1]["cls"] != "atom" for i in c["tree"]["items"]) or \
-            len({i[0] for i in c["tree"]["items"]}) < len(c["tree"]["items"])
-        rep.case("replay", json.dumps([c["tree"], c["mech"], [(s["side"], s["path"], s["o"]) for s in c["steps"]]]), nontriv)
-        if out[0] == "fail":
-            rep.fail(out[1], out[2], out[3])
-        else:
-            rep.traces_validated += 1
-    big = [c for c in cases if len(c["tree"]["items"]) == 2 and len(c["steps"]) > 1]
-    if big:
-        c = big[len(big) // 2]
-        rep.sample({"tree": c["tree"], "mech": c["mech"],
-                    "steps": [{"side": s["side"], "path": s["path"], "o": s["o"]} for s in c["steps"]]})
